@@ -370,6 +370,35 @@ def add_shared_globs(rng: random.Random, project: e3.Project, history: list, var
 # ---------------------------------------------------------------------------------------------
 
 
+# ---------------------------------------------------------------------------------------------
+# Fixed witness (finding C04-optional-upstream, Coq: C04_full_refuted / C04_cone_idle_optional_clause_needed)
+# ---------------------------------------------------------------------------------------------
+OPTIONAL_UPSTREAM_SIGNATURE = "oracle:cone:optional-step-needed-by-an-edited-plan:executed-outside-cone"
+
+
+def optional_upstream_item(flavour: str) -> dict:
+    """plan.py declares a second plan ./p2.py and an OPTIONAL step tu (-> pu.txt) that nothing needs; the first
+    build leaves tu PENDING.  p2.py (a source file) is edited and now declares tx, which consumes pu.txt: the
+    rebuild executes tu, which consumes no edited file and no output of an executed step and was declared by
+    plan.py, which is not rerun."""
+    plan = [{"op": "static", "paths": ["p2.py"]}, {"op": "plan", "label": "./p2.py"},
+            {"op": "step", "label": "tu", "inp": [], "out": ["pu.txt"], "need": "OPTIONAL"}]
+    project = {"sources": {}, "program": {"scripts": {"plan.py": plan, "p2.py": []}, "commands": {}}, "env": {}}
+    newp2 = [{"op": "step", "label": "tx", "inp": ["pu.txt"], "out": ["rx.txt"]}]
+    return {"seed": 1, "flavour": flavour, "max_phases": 1, "njob": 1, "project": project, "history": [],
+            "cone_edits": [[{"op": "script", "path": "p2.py", "actions": newp2}], ["p2.py"]],
+            "cone_schedule": None}
+
+
+def run_optional_upstream(flavour: str) -> dict:
+    """Replay the witness on the real director.  Returns {"reproduced": bool, "report": ...}."""
+    rep = run_case(optional_upstream_item(flavour))
+    hit = [f for f in rep["failures"] if f["signature"] == f"oracle:cone:{flavour}:executed-outside-cone"
+           and f.get("unjustified") == ["tu"]]
+    other = [f for f in rep["failures"] if f not in hit]
+    return {"reproduced": bool(hit), "other": other, "report": rep}
+
+
 def build_kw(item: dict) -> dict:
     return {"resources": "tok:1", "njob": item.get("njob", 1), "timeout": item.get("timeout", 60)}
 
